@@ -107,6 +107,49 @@ Definition c18_fragment (t : table) : bool :=
                                          && forallb (wf_tok_str false) (route_parts w r)) (s_routes w))
           (t_services t).
 
+(* ---- C18, the positive half: premises of the agreement theorem ---- *)
+Fixpoint strs_eqb (a b : list str) : bool :=
+  match a, b with
+  | [], [] => true
+  | x :: a', y :: b' => str_eqb x y && strs_eqb a' b'
+  | _, _ => false
+  end.
+Fixpoint forall2b {A B} (p : A -> B -> bool) (a : list A) (b : list B) : bool :=
+  match a, b with
+  | [], [] => true
+  | x :: a', y :: b' => p x y && forall2b p a' b'
+  | _, _ => false
+  end.
+
+(* a path as clients send it: a leading slash, then non-empty segments, then at most one
+   trailing slash — stated as: both routers cut it into the same non-empty pieces *)
+Definition c18_clean (p : str) : bool :=
+  match path_segs p with
+  | Some segs =>
+      let toks := tokenize p in
+      forallb (fun s => negb (str_eqb s [])) toks
+      && (strs_eqb segs toks || strs_eqb segs (toks ++ [[]]))
+  | None => false
+  end.
+
+(* the two readings of a route's template coincide token by token, and every token is a
+   non-empty literal or a plain variable *)
+Definition plain_tok_eqb (a b : vtok) : bool :=
+  match v_tk a, v_verb a, v_tk b, v_verb b with
+  | TLit s, None, TLit s', None => str_eqb s s' && negb (str_eqb s [])
+  | TVar n, None, TVar n', None => str_eqb n n'
+  | _, _, _, _ => false
+  end.
+Definition c18_route_ok (w : service) (r : route) : bool :=
+  forall2b plain_tok_eqb (route_tpl w r) (jsr_tpl (s_root w) ++ jsr_tpl (r_rel r)).
+Definition c18_service_ok (w : service) : bool := forallb (c18_route_ok w) (s_routes w).
+
+(* the fully eligible routes are strictly ordered by literal-over-variable (K-C18-1 is the
+   complement together with same-shape twins) *)
+Definition c18_chain (w : service) (req : request) : bool :=
+  pairwise (fun a b => dominates (route_tpl w a) (route_tpl w b) || dominates (route_tpl w b) (route_tpl w a))
+           (filter (fun r => admits O w r req) (s_routes w)).
+
 (* candidates that survive every stage form a chain under literal-over-variable *)
 Definition unambiguous (t : table) (req : request) : bool :=
   match detect_web_service O (tokenize (rq_path req)) (t_services t) with
@@ -117,3 +160,18 @@ Definition unambiguous (t : table) (req : request) : bool :=
   end.
 
 End Rank.
+
+(* the same outcome: the same route function of the same service with the same parameter
+   map, or the same error with the same Allow set *)
+Definition rerr_equiv (a b : rerr) : Prop :=
+  match a, b with
+  | E404, E404 | E415, E415 | E406, E406 => True
+  | E405 x, E405 y => forall m, In m x <-> In m y
+  | _, _ => False
+  end.
+Definition routed_equiv (a b : routed) : Prop :=
+  match a, b with
+  | RInvoke w r ps, RInvoke w' r' ps' => w = w' /\ r = r' /\ ps = ps'
+  | RError e, RError e' => rerr_equiv e e'
+  | _, _ => False
+  end.
